@@ -123,6 +123,12 @@ func DecodeBase58Address(address string) (uint16, [20]byte, error) {
 
 	// Could be 2 byte version number
 	if len(payload) == 21 {
+		// A two-byte version below 0x100 is a non-canonical spelling of a
+		// one-byte version, which base58check.EncodeVersion never produces.
+		if version == 0 {
+			return 0, hashed, ErrInvalidAddress
+		}
+
 		version <<= 8
 		version |= uint16(payload[0])
 		payload = payload[1:]
